@@ -368,31 +368,80 @@ func oracleC09(v *View, vd *Verdict) {
 			for k, mc := range x.mqConnect {
 				at := x.mqAt[k]
 				if x.connect.Will {
-					if firstWM < 0 || at <= firstWM {
-						last := "CONNECT"
-						if at > 0 {
-							last = x.pkts[at-1].Name()
+					// a WILLTOPIC and, after it, a WILLMSG must have been consumed before this CONNECT
+					// (packets that arrive out of turn are ignored by a correct gateway, so any
+					// WILLTOPIC ... WILLMSG subsequence qualifies)
+					upto := x.pkts
+					if at < len(upto) {
+						upto = upto[:at]
+					}
+					wtAt, wmAt := -1, -1
+					for i, p := range upto {
+						if p.Type == refsn.WILLTOPIC && wtAt < 0 {
+							wtAt = i
 						}
+						if p.Type == refsn.WILLMSG && wtAt >= 0 && wmAt < 0 {
+							wmAt = i
+						}
+					}
+					nEmpty, nFull := 0, 0
+					for _, p := range upto {
+						if p.Type == refsn.WILLTOPIC {
+							if p.TopicName == "" {
+								nEmpty++
+							} else {
+								nFull++
+							}
+						}
+					}
+					if nEmpty > 0 && nFull == 0 {
+						// an empty WILLTOPIC means "no will" (MQTT-SN 5.4.7): the CONNECT follows at once, without a will
+						if mc.HasWill {
+							vd.Add("C09", "C09/will-after-empty-willtopic", "session %s: empty WILLTOPIC, yet the MQTT CONNECT carries a will [%s]", sv.Name, lab)
+						}
+						continue
+					}
+					if nEmpty > 0 && !mc.HasWill {
+						continue // which of several WILLTOPICs was in turn is the gateway's business
+					}
+					hasWM := false
+					for _, p := range upto {
+						if p.Type == refsn.WILLMSG {
+							hasWM = true
+						}
+					}
+					last := "CONNECT"
+					if len(upto) > 0 {
+						last = upto[len(upto)-1].Name()
+					}
+					if !hasWM {
 						vd.Add("C09", "C09/connect-before-willmsg/after="+last, "session %s: will flag set, MQTT CONNECT written after [%s] before any WILLMSG", sv.Name, lab)
 						continue
 					}
-					if firstWT < 0 || firstWT > firstWM {
-						vd.Add("C09", "C09/connect-without-willtopic", "session %s: MQTT CONNECT written although no WILLTOPIC preceded the WILLMSG [%s]", sv.Name, lab)
+					if wtAt < 0 || wmAt < 0 {
+						vd.Add("C09", "C09/connect-without-willtopic", "session %s: MQTT CONNECT written although no WILLTOPIC preceded a WILLMSG [%s]", sv.Name, lab)
 						continue
 					}
-					// will data carried over — use the latest WILLTOPIC / WILLMSG before the CONNECT
-					for i := 0; i < at && i < len(x.pkts); i++ {
-						if x.pkts[i].Type == refsn.WILLTOPIC {
-							wt = x.pkts[i]
+					// will data carried over: some consumed WILLTOPIC and some WILLMSG after the first WILLTOPIC
+					okT, okM, untranslatable := false, false, false
+					for i, p := range upto {
+						if p.Type == refsn.WILLTOPIC {
+							if p.TopicName == "" || p.QoS == 3 {
+								untranslatable = true // C24's business
+							}
+							if mc.HasWill && mc.WillTopic == p.TopicName && mc.WillQoS == p.QoS && mc.WillRetain == p.Retain {
+								okT = true
+							}
 						}
-						if x.pkts[i].Type == refsn.WILLMSG {
-							wm = x.pkts[i]
+						if p.Type == refsn.WILLMSG && i > wtAt && bytes.Equal(mc.WillMsg, p.Data) {
+							okM = true
 						}
 					}
-					if wt.TopicName == "" || wt.QoS == 3 {
-						continue // untranslatable will: C24's business
+					if untranslatable {
+						continue
 					}
-					if !mc.HasWill || mc.WillTopic != wt.TopicName || !bytes.Equal(mc.WillMsg, wm.Data) || mc.WillQoS != wt.QoS || mc.WillRetain != wt.Retain {
+					if !okT || !okM {
+						wt, wm = upto[wtAt], upto[wmAt]
 						vd.Add("C09", "C09/will-data-mismatch", "session %s: WILLTOPIC %s WILLMSG %x -> CONNECT will=%v topic=%q msg=%x qos=%d retain=%v", sv.Name, wt.String(), wm.Data, mc.HasWill, mc.WillTopic, mc.WillMsg, mc.WillQoS, mc.WillRetain)
 					}
 				} else {
